@@ -426,6 +426,9 @@ def run_c11(chk, tier, seed):
     cands = cands_for(SMALL, rich=False)
     q, e = c10_units(th)
     conv = U(["A"], data=[DATA[x] for x in ("num2", "numsuf", "expr", "hex", "str", "blk", "chr")], h=H(pulls=["req"] * 7))
+    # error/event queue items (with and without extended text) formatted by the library's own Error formatter
+    q = q + [U(["SENS"], query=True, h=H(items=('-171,"Invalid expression;ext one"',))),
+             U(["SENS", "AC"], query=True, h=H(items=('-113,"Undefined header"', '7,"Custom;x;y"')))]
     defs = [f"Q == {set_of(q)}", f"E == {set_of(e[:1] + [conv])}"]
     k = 3
     maxlen = 3 * 16 + 4
